@@ -27,7 +27,9 @@ auto gemv_n(Context ctxt, typename MIt::element a, MIt m_first, Size count, XIt 
 	assert( x_first.base() != y_first.base() );
 	assert( y_first.stride() != 0 );  // BLAS generally doesn't support stride zero
 
-	if constexpr(! is_conjugated<MIt>::value) {
+	if(count != 0 && (*m_first).size() == 0) {  // xGEMV returns at once when the inner dimension is empty, but y = a*M*x + b*y = b*y must still hold
+		ctxt->scal(count, &b, y_first.base(), y_first.stride());
+	} else if constexpr(! is_conjugated<MIt>::value) {
 		if     (m_first .stride()==1)   {ctxt->gemv('N', count, (*m_first).size(), &a, m_first.base()            , (std::max)(static_cast<std::ptrdiff_t>((*m_first).stride()), static_cast<std::ptrdiff_t>(count)), x_first.base(), x_first.stride(), &b, y_first.base(), y_first.stride());}  // a single column has both strides equal to 1: the leading dimension must still be >= count
 		else if((*m_first).stride()==1) {ctxt->gemv('T', (*m_first).size(), count, &a, m_first.base()            , (std::max)(static_cast<std::ptrdiff_t>(m_first.stride()), static_cast<std::ptrdiff_t>((*m_first).size())), x_first.base(), x_first.stride(), &b, y_first.base(), y_first.stride());}
 		else                           {assert(0); /*throw gemv_stride_error{"not BLAS-implemented"};*/}  // LCOV_EXCL_LINE
